@@ -163,6 +163,10 @@ theorem DBDisc.init : DBDisc [] := by
 /-- a read-only view of the indexer -/
 abbrev roV (idb : DB) (v : Nat) : IView := { idb := idb, version := v }
 
+/-- a view without pending operations iterates the database -/
+theorem roV_iter (idb : DB) (v : Nat) (p : Bytes) : (roV idb v).iter p = (roV idb v).dbIter p := by
+  simp [IView.iter, roV]
+
 theorem roV_getB (idb : DB) (v : Nat) (k : Bytes) :
     (roV idb v).getB k = ((VS.mk idb v).get (idxPrefix ++ k)).getD [] := by
   simp [IView.getB, smGet]
@@ -268,7 +272,8 @@ theorem txs_eq {a b : DB} {vera verb va vb c : Nat} (hra : IRep IdxKey a vera) (
     rw [(hdy.txi c i w' raw' hc hi hm' hg').1]
     exact Nat.le_refl _
   have hiter : (roV a va).iter (txHeightKey c) = (roV b vb).iter (txHeightKey c) := by
-    simp only [IView.iter]
+    rw [roV_iter, roV_iter]
+    simp only [IView.dbIter]
     rw [iter_congr_sees wa wb hva hvb _ (hra.compatP (idxKey_pfx c)) (hrb.compatP (idxKey_pfx c)) false false false]
     intro uk x hp
     exact ⟨dir hra hvera hda hdb hcb (fun i raw hi h => (hag i raw hi).mp h) uk x hp,
@@ -278,7 +283,8 @@ theorem txs_eq {a b : DB} {vera verb va vb c : Nat} (hra : IRep IdxKey a vera) (
   apply List.map_congr_left
   intro kv hkv
   -- every element is a height.index entry of version `c` whose value is a tx hash key stored at `c`
-  simp only [IView.iter, List.mem_map] at hkv
+  rw [roV_iter] at hkv
+  simp only [IView.dbIter, List.mem_map] at hkv
   obtain ⟨e, he, rfl⟩ := hkv
   have hsa := ((VS.iter_sees a wa va hva _ (hra.compatP (idxKey_pfx c)) false false).2 e.1 e.2).mp he
   obtain ⟨w, raw, hwv, hwm, hget, _, _, hx⟩ := hsa.2
@@ -782,7 +788,9 @@ theorem txs_of_committed {idb : DB} {ver c : Nat} (hr : IRep IdxKey idb ver) (hv
         intro w' raw' _ hm' hg'
         rw [(hd.txi c p.2 w' raw' hc hj hm' hg').1]
         exact Nat.le_refl _
-  unfold IView.txsByHeight IView.iter
+  unfold IView.txsByHeight
+  rw [roV_iter]
+  unfold IView.dbIter
   rw [hL]
   simp only [L, List.map_map]
   -- element-wise: the tx record of each listed hash decodes that hash
@@ -1218,7 +1226,7 @@ theorem CInv.apply {K : Bytes → Prop} (hK : WFKeys K) {s : IState} {m : VMap} 
           have : s.commit = s := by unfold IState.commit; rw [hm]
           rw [this]; exact ⟨m, pb, hi⟩
         | nil =>
-          have hce : s.commit = IState.mk s.st.commit (applyBatch s.idb (idxBatch s.idxOv (s.st.version + 1))) [] s.cache := by
+          have hce : s.commit = IState.mk s.st.commit (applyBatch s.idb (idxBatch s.idxOv (s.st.version + 1))) [] s.cache s.idxSort := by
             unfold IState.commit; rw [hm]
           rw [hce] at hinv' ⊢
           exact ⟨m', none, hinv', DBDisc.commit hi.inv.idx hi.disc hi.pend (by omega),
@@ -1302,5 +1310,81 @@ theorem CInv.transparent {K : Bytes → Prop} {s : IState} {m : VMap} {pb : Opti
   have h1 : (getBlockByHeight .byHashKey s.cache (s.ro v) h).1 = (s.ro v).dbBlockByHeight h :=
     Canopy.Store.transparent hi.inv.idx hver hi.disc hi.cache hv hh
   exact ⟨h1, by unfold getQCByHeight; simp only; rw [h1]⟩
+
+/-! ## iteration through the block store's indexer sees the block's own pending writes -/
+
+theorem sorted_foldl_smSet2 {α : Type} (l : List α) (f g : α → Bytes × TOp) : ∀ (ov : Overlay), SSorted ov →
+    SSorted (l.foldl (fun o a => smSet (smSet o (f a).1 (f a).2) (g a).1 (g a).2) ov) := by
+  induction l with
+  | nil => intro ov h; exact h
+  | cons a l ih => intro ov h; exact ih _ (sorted_smSet (sorted_smSet h _ _) _ _)
+
+/-- the pending index operations stay a sorted overlay -/
+theorem IState.apply_sorted_idxOv (mode : CacheKeying) (s : IState) (op : IOp) (h : SSorted s.idxOv) :
+    SSorted (s.apply mode op).idxOv := by
+  cases op with
+  | store o =>
+    cases o with
+    | commit =>
+      simp only [IState.apply, IState.commit]
+      split
+      · exact List.Pairwise.nil
+      · exact h
+    | rollback t =>
+      simp only [IState.apply]
+      split
+      · unfold IState.rollback
+        split
+        · exact h
+        · split
+          · exact h
+          · exact List.Pairwise.nil
+      · exact h
+    | _ => exact h
+  | indexBlock hh hash txs =>
+    simp only [IState.apply, IState.indexBlock]
+    exact sorted_foldl_smSet2 _ (fun (p : Bytes × Nat) => (txHashKey p.1, TOp.set (encTx hh p.2 p.1))) (fun (p : Bytes × Nat) => (txHeightIndexKey hh p.2, TOp.set (txHashKey p.1))) _
+      (sorted_smSet (sorted_smSet h _ _) _ _)
+  | indexQC hh bh => exact sorted_smSet h _ _
+  | reset =>
+    simp only [IState.apply]
+    split
+    · exact List.Pairwise.nil
+    · exact h
+  | purgeCache => exact h
+  | getBlock vw hh hdr => exact h
+  | getQC vw hh => exact h
+
+theorem runIOps_sorted_idxOv (mode : CacheKeying) (ops : List IOp) : ∀ (s : IState), SSorted s.idxOv →
+    SSorted (runIOps mode s ops).idxOv := by
+  induction ops with
+  | nil => intro s h; exact h
+  | cons op ops ih => intro s h; exact ih _ (IState.apply_sorted_idxOv mode s op h)
+
+/-- **iteration through an indexer `Txn` built with `sort = true`** (its sorted tree holds every pending
+operation) over a represented index: the merged iterator yields *the* scan — strictly ordered, complete,
+duplicate-free — of the committed index as of the view's version with the pending operations applied:
+pending puts are there, pending deletes hide committed entries. -/
+theorem sorted_txn_iter_scan {IK : Bytes → Prop} (hIK : WFKeys IK) {idb : DB} {ver : Nat} (hr : IRep IK idb ver)
+    (hver : ver ≤ maxVer) (v : Nat) (hv : v ≤ maxVer) (ov : Overlay) (hs : SSorted ov) (hk : ∀ e ∈ ov, IK e.1)
+    (p : Bytes) (hp : PfxOK IK p) :
+    IsScanR (applyOvR ov fun k x => Sees idb v (idxPrefix ++ k) x) p false
+      (IView.iter { idb := idb, version := v, pend := ov, ipend := ov } p) := by
+  have hw := hr.wfl hIK hver
+  let hd : Handle := { snap := idb, rver := v, pfx := idxPrefix, layers := [] }
+  have hwf : hd.WF := ⟨hw, hv, by intro l hl; cases hl⟩
+  have hbase := base_scan hd hwf p false false (hr.compatP hp)
+  have hok : OvKeysOK ov := by
+    intro e he
+    have := hIK.ok e.1 (hk e he)
+    exact ⟨this.1, by have := this.2.1; omega⟩
+  have hm := layer_scan ov hs hok hd.baseView p false _ hbase
+  cases ov with
+  | nil =>
+    simp only [IView.iter, IView.dbIter]
+    refine IsScanR.congr ?_ hbase
+    intro k x
+    simp [applyOvR, smGet, Handle.baseView, hd]
+  | cons e rest => exact hm
 
 end Canopy.Store
